@@ -9,8 +9,9 @@ Proved lemmas (E2/E5 on the real generated parser and runtime):
        inside a statement reads past the NEWLINE that ends it (beyond the one-token probes of (v));
  (v)   the tokens probed after a block (else / elif / except / finally) are not in first(statement).
 Assumed: tokenizer neutrality (i) (mode stack and bracket depth back to neutral at a top-level NEWLINE) and the composition of
-(i)-(v) into the statement of the property (argued in prose).  That concatenate_strings clears _path_token on every path is NOT
-proved (its body is outside the executor's subset): bounded stand-in only.
+(i)-(v) into the statement of the property (argued in prose).  concatenate_strings / handle_fstring are verified from their bodies
+(E1): a p prefix is remembered together with the node that owns it, is consumed exactly by the concatenation containing that node,
+and both fields are None afterwards; otherwise they are untouched.
 Bounded: ordered pairs and triples from a statement pool (Python + every xonsh statement form).
 """
 from __future__ import annotations
@@ -185,7 +186,6 @@ def standin(rep: Report):
 def run(rep: Report):
     rep.trust("CPython ast", "engine/pegir, engine/pegfacts", "engine/pyvc (in_recursive_rule restoration)")
     rep.assume("(i) tokenizer neutrality at a top-level NEWLINE (mode stack empty, bracket depth 0, continuation flag false) is assumed, checked by the stand-in only",
-               "concatenate_strings clears _path_token on every path: NOT proved (outside the executor's subset), stand-in only",
                "the composition of the lemmas into parse(A+B) = parse(A) ++ shift(parse(B)) is argued in prose")
     e1common.file_into(rep, "C14", rep.tier)
     flag_obligations(rep)
